@@ -162,6 +162,7 @@ class Walker:
         return rets, cur
 
     def _stmt(self, s, st, frame):
+        frame['stmt'] = s
         if isinstance(s, ast.If):
             st = self._calls_in(s.test, st, frame)
             if st is None:
